@@ -158,7 +158,11 @@ class StreamingHandler(AsyncCallbackHandler, AsyncIterator):
                 self.completion += chunk
 
                 # Check if the completion contains one of the stop chunks
-                for stop_chunk in self.stop:
+                # (the one that occurs first in the text wins)
+                for stop_chunk in sorted(
+                    (s for s in self.stop if s in self.completion),
+                    key=self.completion.find,
+                ):
                     if stop_chunk in self.completion:
                         # Make sure the stop chunk is not included
                         self.completion = self.completion.split(stop_chunk)[0]
@@ -167,6 +171,10 @@ class StreamingHandler(AsyncCallbackHandler, AsyncIterator):
                         # We push that as well.
                         if len(self.completion) > len(prev_completion):
                             self.current_chunk = self.completion[len(prev_completion) :]
+                            # The new part is added back to the completion when it is
+                            # pushed, and the prefix can no longer match.
+                            self.completion = prev_completion
+                            self.prefix = None
                             await self.push_chunk(None)
 
                         # And we stop the streaming
@@ -216,10 +224,11 @@ class StreamingHandler(AsyncCallbackHandler, AsyncIterator):
                 self.current_chunk = self.current_chunk[len(self.prefix) :]
                 self.prefix = None
 
-                # If we're left with something, we "forward it".
+                # If we're left with something, we "forward it"
+                # (it still needs to be checked for the suffix/stop chunks).
                 if self.current_chunk:
-                    await self._process(self.current_chunk)
-                    self.current_chunk = ""
+                    chunk, self.current_chunk = self.current_chunk, ""
+                    await self.push_chunk(chunk)
         elif self.suffix or self.stop:
             # If we have a suffix, we always check that the total current chunk does not end
             # with the suffix.
